@@ -942,6 +942,7 @@ func runC02(c *Ctx) {
 		}
 	}
 	runC02TemporalValues(c)
+	runC02SchemaSweep(c)
 	// hand-built wrappers
 	nav := &navCtx{ids: NewIDTable()}
 	entry := &bcrpb.Bundle_Entry{Resource: &bcrpb.ContainedResource{}}
